@@ -30,11 +30,12 @@ def observe(case):
     ta, files, g, ok = CP.run_cp(case)
     try:
         rows = htaio.rows_of(ta.t, case["params"]["rank"])
+        waits = htaio.waits_of(ta.t, case["params"]["rank"])
         canon: Dict[str, Any] = {"ok": ok}
         if g is not None:
             canon.update(CP.dump_graph(g))
             canon["clipped"] = sorted(int(i) for i in g.trace_df["index"])
-        return {"rows": rows, "canon": canon}
+        return {"rows": rows, "waits": waits, "canon": canon}
     finally:
         htaio.remove_case_dir(files)
 
@@ -62,7 +63,7 @@ def model(drv, case, obs):
     p = case["params"]
     a, b = _inst(p)
     return drv.call({"op": "c08", "rows": obs["rows"], "annotation": p["annotation"], "i_start": a, "i_end": b,
-                     "zero_launch": p["zero_weight_launch"]})
+                     "zero_launch": p["zero_weight_launch"], "waits": obs.get("waits", [])})
 
 
 def compare(obs, mod) -> List[str]:
@@ -98,6 +99,57 @@ def spec_check(drv, case, obs) -> List[str]:
         return ["networkx finds no topological order for the implementation's graph (it has a cycle)"]
     ans = drv.call({"op": "c08.check", "rows": obs["rows"], "edges": [e[:6] for e in c["edges"]], "rank": c["rank"]})
     return [f"Spec.C08.{k} rejects the implementation's graph" for k in ("topo", "weights", "forward", "types") if ans.get(k) is not True]
+
+
+def _event_src_candidates(obs, by, rec_corr, wstream, dev_pid):
+    """Kernels that may stand for 'the work the event recorded by call `rec_corr` waits for': the activity of the last
+    linked launch call that started no later than the cudaEventRecord call and put work on that stream of that device
+    (at equal start times either order is accepted)."""
+    recs = [x for x in obs["rows"] if x[9] == "cudaEventRecord" and x[6] == rec_corr]
+    if len(recs) != 1:
+        return set()
+    rec = recs[0]
+    ls = [x for x in obs["rows"] if x[9] in LAUNCHES and x[7] > 0 and x[7] in by and by[x[7]][5] == wstream and by[x[7]][3] == dev_pid and by[x[7]][7] > 0 and x[1] <= rec[1]]
+    if not ls:
+        return set()
+    last = max(x[1] for x in ls)
+    return {x[7] for x in ls if x[1] == last}
+
+
+def _sync_justified(obs, by, se, de, dst_is_start):
+    """A synchronisation edge must be justified by a synchronisation record of the trace: Stream Sync / Context Sync
+    (a kernel of the awaited stream -> the end of the blocking call), Event Sync (the kernel the recorded event waits
+    for -> the end of cudaEventSynchronize), Stream Wait Event (that kernel -> the start of the next kernel the calling
+    thread puts on the waiting stream). Returns a reason when no record justifies the edge."""
+    waits = {w[0]: (w[1], w[2]) for w in obs.get("waits", [])}
+    src, dst = by[se], by[de]
+    if not dst_is_start:
+        # records linked to the host call that waited
+        recs = [x for x in obs["rows"] if x[10] == "cuda_sync" and x[7] == de]
+        for r in recs:
+            if r[9] == "Context Sync":
+                return None
+            if r[9] == "Stream Sync" and r[5] == src[5]:
+                return None
+            if r[9] == "Event Sync":
+                ws, wc = waits.get(r[0], (-1, -1))
+                if ws > -1 and se in _event_src_candidates(obs, by, wc, ws, r[3]):
+                    return None
+        return f"no synchronisation record of host call {de} waits for kernel {se} (stream {src[5]})"
+    for r in obs["rows"]:
+        if r[9] != "Stream Wait Event" or r[5] != dst[5] or r[7] <= 0 or r[7] not in by:
+            continue
+        ws, wc = waits.get(r[0], (-1, -1))
+        if ws <= -1 or se not in _event_src_candidates(obs, by, wc, ws, r[3]):
+            continue
+        call = by[r[7]]
+        nxt = [x for x in obs["rows"] if x[9] in LAUNCHES and x[7] > 0 and x[7] in by and by[x[7]][5] == r[5] and by[x[7]][7] > 0
+               and x[3] == call[3] and x[4] == call[4] and x[1] >= call[1] and x[0] != call[0]]
+        if nxt:
+            first = min(x[1] for x in nxt)
+            if de in {x[7] for x in nxt if x[1] == first}:
+                return None
+    return f"no Stream Wait Event record makes kernel {de} wait for kernel {se}"
 
 
 NODE_CATS = {"cpu_op", "cuda_runtime", "cuda_driver"}
@@ -157,6 +209,10 @@ def oracle(case, obs) -> List[str]:
         if ty == "sync":
             if not (not ss and xs[5] != -1 and ((not ds and xd[5] == -1) or (ds and xd[5] != -1))):
                 out.append(f"sync edge {e[:6]} does not run from a kernel's end to a host call's end or a kernel's start")
+            else:
+                why = _sync_justified(obs, by, se, de, ds)
+                if why:
+                    out.append(f"sync edge {e[:6]}: {why}")
     # acyclic
     color: Dict[Any, int] = {}
 
@@ -189,6 +245,11 @@ def features(case, obs):
     if c.get("edges"):
         for ty in ("op", "dep", "launch", "kk", "sync"):
             f["edge_" + ty] = int(any(e[5] == ty for e in c["edges"]))
+        by = {x[0]: x for x in obs["rows"]}
+        f["edge_sync_gpu_to_gpu"] = int(any(e[5] == "sync" and e[3] for e in c["edges"]))
+        f["edge_sync_event_synchronize"] = int(any(e[5] == "sync" and not e[3] and by[e[2]][9] == "cudaEventSynchronize" for e in c["edges"]))
+        f["event_records"] = int(any(x[9] == "cudaEventRecord" for x in obs["rows"]))
+        f["stream_wait_records"] = int(any(x[9] == "Stream Wait Event" for x in obs["rows"]))
         f["nodes"] = len(c["nodes"])
         f["zero_weight_launch"] = int(case["params"]["zero_weight_launch"])
         f["window"] = int(case["params"]["annotation"] != "")
